@@ -91,6 +91,28 @@ func c09Gen(rt *rapid.T) wProg {
 				}
 				p.Ops = append(p.Ops, wOp{K: "note", S: 0, T: "g0", A: "kp", Obo: 2})
 			}
+		case x < 8:
+			// P2P: a participant with marks unsubscribes, is invited back by the peer while the topic stays
+			// loaded, subscribes and looks at the description: the new subscription starts from zero
+			a, b := -1, -1
+			for k, u := range p.Sess {
+				if u == 0 && a < 0 {
+					a = k
+				}
+				if u == 1 && b < 0 {
+					b = k
+				}
+			}
+			if a >= 0 && b >= 0 {
+				if gPct(rt, 50) {
+					a, b = b, a
+				}
+				ta, tb := fmt.Sprintf("p%d", p.Sess[b]), fmt.Sprintf("p%d", p.Sess[a])
+				p.Ops = append(p.Ops, wOp{K: "sub", S: a, T: ta}, wOp{K: "sub", S: b, T: tb}, wOp{K: "pub", S: a, T: ta}, wOp{K: "pub", S: a, T: ta}, wOp{K: "pub", S: a, T: ta},
+					wOp{K: "note", S: b, T: tb, A: "recv", N: 3}, wOp{K: "note", S: b, T: tb, A: "read", N: 2}, wOp{K: "leave", S: b, T: tb, F: true},
+					wOp{K: "set", S: a, T: ta, A: "given", U: p.Sess[b], B: gPick(rt, []string{"JRWPA", ""}, "reinv")}, wOp{K: "sub", S: b, T: tb},
+					wOp{K: "get", S: b, T: tb, A: "desc"}, wOp{K: "note", S: b, T: tb, A: "read", N: gInt(rt, 1, 2, "rn")}, wOp{K: "get", S: a, T: ta, A: "sub"})
+			}
 		case x < 12:
 			// a reader working through the messages: receipts in ascending order, then a stale one
 			t := topicFor(s)
@@ -227,6 +249,16 @@ func (o *c09Obs) rep(v *kit.Viol) *kit.Viol {
 }
 
 // cacheAgrees: the loaded topic's cached marks and modes of uid equal the stored ones (else C08's business).
+// cacheAgreesModes: the loaded topic knows the user as a subscriber, as the store does (marks are what is being judged).
+func (o *c09Obs) cacheAgreesModes(route string, uid types.Uid) bool {
+	lt := o.preLive[route]
+	if lt == nil {
+		return true
+	}
+	pud, ok := lt.PerUser[uid]
+	return ok && !pud.deleted
+}
+
 func (o *c09Obs) cacheAgrees(route, row string, uid types.Uid) bool {
 	lt := o.preLive[route]
 	if lt == nil {
@@ -304,6 +336,19 @@ func (o *c09Obs) After(w *wWorld, st *wStep) *kit.Viol {
 			if d := f.Meta.Desc; d != nil && (d.ReadSeqId != 0 || d.RecvSeqId != 0) {
 				if d.ReadSeqId < 0 || d.ReadSeqId > d.RecvSeqId || d.RecvSeqId > d.SeqId {
 					return kit.V("reported-marks-disordered:desc", "session %d was shown {meta desc} of %s with read=%d recv=%d seq=%d", sess, f.Meta.Topic, d.ReadSeqId, d.RecvSeqId, d.SeqId)
+				}
+			}
+			// what a user is shown about the own subscription is what is stored ("in every place they
+			// are reported and stored"): judged for P2P topics and groups, for the session which asked
+			if d := f.Meta.Desc; d != nil && sess == st.Sess && st.Op.K == "get" && st.Op.Obo == 0 && !st.Skipped && st.User >= 0 && f.Meta.Id == st.ReqID &&
+				(strings.HasPrefix(st.Route, "p2p") || strings.HasPrefix(st.Route, "grp")) && !o.tainted[st.Route] {
+				if at, attached := o.preAtt[sess][st.Route]; attached && !at.Chan && !strings.HasPrefix(st.Name, "chn") {
+					// (a subscriber without R is not shown marks at all)
+					if row, ok := now[subKey{st.Route, w.users[st.User].uid}]; ok && !row.deleted && (row.want&row.given).IsReader() && o.cacheAgreesModes(st.Route, w.users[st.User].uid) {
+						if d.ReadSeqId != row.read || d.RecvSeqId != effRecv(row) {
+							return o.rep(kit.V("reported-marks-differ-from-stored", "user %d was shown {meta desc} of %s with read=%d recv=%d; the stored subscription has read=%d recv=%d", st.User, st.Route, d.ReadSeqId, d.RecvSeqId, row.read, effRecv(row)))
+						}
+					}
 				}
 			}
 			for _, s := range f.Meta.Sub {
